@@ -153,7 +153,7 @@ def pick_address(cfg, sel, raw):
 
 class RegSub(Sub):
     name = "registers"
-    budget = {"quick": 6000, "thorough": 80000}
+    budget = {"quick": 8000, "thorough": 80000}
     rule = ("1..6 SPI transactions (read/write, assigned / one-bit-neighbour / arbitrary address, random value, CS "
             "abort after any number of clocks incl. mid-bit, extra clocks after completion, SCK jitter) on 8 register "
             "maps (memory incl. narrow, external-signal, constant, read-only signal, SFR, write-only, unassigned; "
@@ -183,7 +183,7 @@ class RegSub(Sub):
                             st.tuples(st.one_of(st.integers(0, 47), st.sampled_from([-1, -2, -3, -4])), st.booleans())),
             extra=weighted([(0, 4), (1, 1), (3, 1)]),
             rdv=st.integers(0, 0xFFFFFFFF),
-            gap=st.integers(4, 8), lead=st.integers(1, 4), trail=st.integers(1, 4), sdid=st.integers(0, 2),
+            gap=st.integers(4, 8), lead=st.integers(1, 4), trail=weighted([(1, 2), (0, 3), (2, 1), (3, 1), (4, 1)]), sdid=st.integers(0, 2),
         ))
         return st.fixed_dictionaries(dict(
             cfg=st.integers(0, len(CONFIGS) - 1),
@@ -266,7 +266,9 @@ class RegSub(Sub):
                 emit(1)
                 cur["sck"] = 0
             else:
-                emit(max(1, op["trail"]))
+                # an ABORTED transaction may release CS in the very cycle the last falling SCK edge is seen
+                # (trail 0: both pins change together); a completed one keeps CS for >= 1 more cycle
+                emit(op["trail"] if abort is not None else max(1, op["trail"]))
                 cur["cs"] = 0
             complete = abort is None
             before = dict(model.mem)
